@@ -17,7 +17,7 @@ def observe(case, warmup=0):
         # unrelated diagrams built and queried earlier in the same process
         rng = random.Random(warmup)
         for _ in range(warmup):
-            other = plain.make_sd({"bnet": common.g_mixed(rng, nmax=5)})
+            other = plain.make_sd({"bnet": common.g_compose(rng, extra_max=1) if rng.random() < 0.7 else common.g_mixed(rng, nmax=5)})
             try:
                 common.guarded(20, other.build)
                 succession_control(other, {other.network.variable_names()[0]: 1})
@@ -60,4 +60,13 @@ def observe(case, warmup=0):
 if __name__ == "__main__":
     common.load_biobalm()
     case = json.loads(sys.stdin.read())
-    print(json.dumps(observe(case, warmup=case.get("warmup", 0)), sort_keys=True))
+    if "batch" in case:
+        out = []
+        for j, c in enumerate(case["batch"]):
+            try:
+                out.append(common.guarded(40, observe, c, warmup=case.get("warmup", 0) if j == 0 else 0))
+            except common.Timeout:
+                out.append({"timeout": True})
+        print(json.dumps(out, sort_keys=True))
+    else:
+        print(json.dumps(observe(case, warmup=case.get("warmup", 0)), sort_keys=True))
